@@ -30,10 +30,12 @@ def configure(cfg, r, tier):
         for op in list(t):
             if op.startswith(("add_", "alias_add", "dup_edge", "update")):
                 t[op] *= 2.5
-    cfg["faults"] = r.random() < 0.2
+    cfg["faults"] = r.random() < 0.35
     if cfg["faults"]:
-        cfg["fault_rate"] = 0.15
-        cfg["fault_kinds"] = ["oneshot", "none_member", "dying"]
+        cfg["fault_rate"] = r.choice([0.15, 0.25])
+        # calls that raise half-way leave the ID bookkeeping where the exception found it: the next
+        # automatic IDs must still be fresh
+        cfg["fault_kinds"] = ["oneshot", "none_member", "dying", "attr_junk", "attr_junk", "exotic_id"]
     cfg["p_prov"] = r.choice([0.1, 0.18, 0.25])
     cfg["json_attrs"] = True
     cfg["chunks"] = r.choice([None, (1, 16)])
